@@ -44,7 +44,7 @@ type c11Case struct {
 	Lens  []int    `json:"lens"`     // concrete length of each abstract symbol
 	Sched []int    `json:"sched"`    // chunk sizes (cycled); 0 = zero-length read
 	WithE bool     `json:"with_err"` // the last data chunk is returned together with the terminal error
-	Pat   int      `json:"pat"`      // what the inner bytes of strings are made of (0 letters, 1 escaped quotes first, 2 escaped quotes last, 3 UTF-8, 4 backslashes, 5 literals true/false/null where the lengths fit)
+	Pat   int      `json:"pat"`      // what the inner bytes of strings are made of (0 letters, 1 escaped quotes first, 2 escaped quotes last, 3 UTF-8, 4 backslashes, 5 literals true/false/null where the lengths fit, 6 digit runs with a fraction, 7 with fraction and exponent)
 	Ideal [][3]int `json:"ideal"`    // kind (0 val,1 EOF,2 E,3 ueof,4 syn), start, end in abstract offsets
 	Trace bool     `json:"trace,omitempty"`
 }
@@ -142,8 +142,18 @@ func liftStream(s []string, lens []int, pat int) (data []byte, cum []int) {
 				data = append(data, " \n\t\r"[(k*7+i)%4])
 			}
 		case "d":
+			start := len(data)
 			for k := 0; k < n; k++ {
 				data = append(data, byte('1'+(k+i)%9))
+			}
+			// patterns 6 and 7: the digit run is a number with a fraction (and an exponent): still one value that is
+			// complete after every digit behind the point, parsed by other code than integers
+			if (pat == 6 || pat == 7) && n >= 3 && (i == 0 || s[i-1] != "d") && (i+1 >= len(s) || s[i+1] != "d") {
+				run := data[start:]
+				run[1] = '.'
+				if pat == 7 && n >= 6 {
+					run[n-3] = 'e'
+				}
 			}
 		case "o", "c":
 			data = append(data, '"')
@@ -453,7 +463,7 @@ func c11Vector(c *Ctx, raw stdjson.RawMessage) {
 	tracing := traceSink() && r.intn(100) < tracePct
 	forcePat := -1
 	run := func(lens, sched []int, withE bool, trace bool) {
-		pat := r.intn(6)
+		pat := r.intn(8)
 		if forcePat >= 0 {
 			pat = forcePat
 		}
